@@ -243,6 +243,8 @@ impl Writer {
             if size != self.written {
                 return Err(Error::SizeMismatch(size, self.written));
             }
+        } else {
+            self.opts.size = Some(self.written);
         }
         if let Some(key) = self.key {
             index::insert_async(&cache, &key, self.opts).await
@@ -594,6 +596,8 @@ impl SyncWriter {
             if size != self.written {
                 return Err(Error::SizeMismatch(size, self.written));
             }
+        } else {
+            self.opts.size = Some(self.written);
         }
         if let Some(key) = self.key {
             index::insert(&cache, &key, self.opts)
